@@ -99,7 +99,9 @@ pub struct DM {
 
 pub struct SplitFam;
 
-const ALPHA: &[&str] = &["a", "b", ",", "é", "€", "😀", "aa", "ab", "a", ",", "ᄀ", "à"];
+// incl. shorter chars that share their last byte(s) with a longer delimiter char: ¬ (C2 AC) vs € (E2 82 AC);
+// À (C3 80), U+3000 (E3 80 80) vs 😀 (F0 9F 98 80)
+const ALPHA: &[&str] = &["a", "b", ",", "é", "€", "😀", "aa", "ab", "a", ",", "ᄀ", "à", "¬", "À", "\u{3000}", "ì"];
 const DELIMS: &[&str] = &["", "a", "aa", "ab", "aab", ",", ",,", "é", "€a", "aba", "abab", "b", "😀", ",a,", "aaa", "abaab", "aabaa", "ééa", "€€", "a😀a", "<--"];
 const DELIM_CHARS: &[char] = &['a', ',', '€', 'é', '😀', 'b'];
 
@@ -136,7 +138,16 @@ impl Fam for SplitFam {
 
     fn gen_setup(rng: &mut Rng, tier: Tier, prop: &str) -> DSetup {
         let maxlen = if tier == Tier::Thorough { 24 } else { 12 };
-        let delim = if rng.chance(1, 4) { DPat::C(*rng.pick(DELIM_CHARS)) } else { DPat::S(rng.pick(DELIMS).to_string()) };
+        let delim = match rng.below(12) {
+            0..=2 => DPat::C(*rng.pick(DELIM_CHARS)),
+            3..=5 => {
+                // random delimiter over a tiny alphabet: every overlap / periodicity structure up to length 5
+                let n = rng.range(1, 5);
+                let two = rng.chance(2, 3);
+                DPat::S((0..n).map(|_| if two { *rng.pick(&['a', 'b']) } else { *rng.pick(&['a', 'b', ',', 'é']) }).collect())
+            }
+            _ => DPat::S(rng.pick(DELIMS).to_string()),
+        };
         let ds = delim.as_string();
         let n = if rng.chance(1, 10) { rng.range(0, 1) } else { rng.range(0, maxlen) };
         let mut text = String::new();
@@ -395,6 +406,27 @@ impl Fam for SplitFam {
             cov.probe("split-rev-of-fresh-iterator");
         }
     }
+    fn sweep_setups() -> Vec<DSetup> {
+        let cases: [(&str, &str); 14] = [
+            ("", ""), ("", ","), ("a", ""), ("é€", ""), (",", ","), (",,", ","), ("a,b", ","), (",a,", ","), ("a,,b,", ","),
+            ("aaab", "aab"), ("baaa", "baa"), ("€a€", "€"), ("😀😀", "😀"), ("ab", "abc"),
+        ];
+        let kinds = [DKind::Split, DKind::RSplit, DKind::SplitTerminator, DKind::RSplitTerminator, DKind::SplitRevFresh, DKind::RSplitRevFresh];
+        let mut v = Vec::new();
+        for (t, d) in cases {
+            for kind in kinds {
+                v.push(DSetup { text: t.to_string(), delim: DPat::S(d.to_string()), kind, free: false });
+                if d.chars().count() == 1 {
+                    v.push(DSetup { text: t.to_string(), delim: DPat::C(d.chars().next().unwrap()), kind, free: false });
+                }
+                if matches!(kind, DKind::Split | DKind::RSplit) {
+                    v.push(DSetup { text: t.to_string(), delim: DPat::S(d.to_string()), kind, free: true });
+                }
+            }
+        }
+        v
+    }
+
     fn required_probes() -> &'static [&'static str] {
         &[
             "split-empty-delim-multibyte",
